@@ -1,6 +1,6 @@
 (* C13: encoded LapTimer files are well-formed XML in LapTimer's field syntax. *)
 From Coq Require Import String Ascii List ZArith NArith Bool.
-From TT Require Import Base.Outcome Base.Str Base.F64 Xml.Print Xml.Lex Laptimer.Leaves Laptimer.Value Laptimer.Codec Proofs.Xml_proofs.
+From TT Require Import Base.Outcome Base.Str Base.F64 Xml.Print Xml.Lex Laptimer.Leaves Laptimer.Value Laptimer.Codec Proofs.Xml_proofs Proofs.Doc_proofs Proofs.Doc_lt.
 Import ListNotations.
 Local Open Scope Z_scope.
 
@@ -42,3 +42,24 @@ Example C13_field_syntax :
   = [ "31-MAY-22,23:59:58"; "31-MAY-22,23:59:58.25"; "02:03.45"; "100:00.00"; "50.85795200,-0.75261700";
       "1,2,1"; "123.5,01:01.23"; "2"; "-0.0"; "0.12"; "0.333333"; "90%"; "1.99" ]%string.
 Proof. vm_compute. reflexivity. Qed.
+
+(* ---- the whole document ---- *)
+(* For EVERY tree of LapTimer's shape (an element is empty, holds one non-empty text, or holds only
+   elements; names are XML names, attribute values are plain), at any depth and width: the
+   document the encoder writes - declaration, tab indentation, escaped text passed through the
+   line filter - is accepted by the strict reader and parses to that very tree, its texts cleaned
+   of the characters XML cannot carry. *)
+Theorem C13_document_wellformed : forall t, shaped t -> lex (document t) = Ok (cleaned t).
+Proof. exact lex_document. Qed.
+Print Assumptions C13_document_wellformed.
+
+(* ... and every value of the LapTimer model (field names from the schema) has that shape *)
+Theorem C13_every_value_parses : forall v, wf_val v -> lex (enc_text v) = Ok (cleaned (root_tree v)).
+Proof. exact enc_parses. Qed.
+Print Assumptions C13_every_value_parses.
+
+(* what is in the file: the printed tree with each text character in its file form (literal tab
+   and line feed, the five predefined entities, &#xD;), tags untouched by the line filter *)
+Theorem C13_file_form : forall t d f r, tags_ok t -> filter_text (print_tree d f t ++ r) = file_tree d f t ++ filter_text r.
+Proof. exact filter_print. Qed.
+Print Assumptions C13_file_form.
